@@ -2,4 +2,4 @@
    stay Coq's datatypes). *)
 Require Import ExtrOcamlBasic.
 From SV Require Import Model.C09_TrStrategy Model.C09_Minimize.
-Extraction "model.ml" replay_ceres replay_disney replay_scripted ceres_init disney_init result_status result_iter.
+Extraction "model.ml" replay_ceres replay_disney replay_scripted ceres_init disney_init result_status result_iter code_now.
